@@ -97,3 +97,33 @@ package main
 //@   loop 1   invariant [max]     alignment == maxAlignF(fields, i) && alignment >= 1
 //@   loop 1   invariant [offs]    len(offsets) == len(fields) && (forall j int :: {offsets[j]} 0 <= j && j < len(fields) ==> offsets[j] == align(endof(fields, j), fields[j].Align))
 //@   loop 1   invariant [end]     pos == endof(fields, i)
+
+// ---- combine: the flat layout printed by structlayout ("T.f", "T.in.x", "T.in.y", padding)
+// is folded into one entry per top-level field ----
+//@ extern strings.Split(s string, sep string) []string
+//@   pure
+//@ extern strings.Join(elems []string, sep string) string
+//@   pure
+// top(n): the first two dot-separated components of a field name ("T.in" for "T.in.x")
+//@ ghost top(n string) string = strings.Join(strings.Split(n, ".")[0:2], ".")
+// galign(fs, g): the largest alignment among the (non-padding) members of group g (TRUSTED
+// definition: an upper bound that is attained, 0 for a group without members)
+//@ ghost galign(fs []st.Field, g string) int64
+//@ group gdef
+//@ axiom [galign_ge]  forall fs []st.Field, j int :: {fs[j]} 0 <= j && j < len(fs) && !fs[j].IsPadding ==> fs[j].Align <= galign(fs, top(fs[j].Name))
+//@ axiom [galign_att] forall fs []st.Field, g string :: {galign(fs, g)} galign(fs, g) == 0 || (exists j int :: {fs[j]} 0 <= j && j < len(fs) && !fs[j].IsPadding && top(fs[j].Name) == g && fs[j].Align == galign(fs, g))
+//@ group
+//@ func combine
+//@   uses     gdef
+//@   nosafe   all
+//@   requires forall j int :: {fields[j]} 0 <= j && j < len(fields) ==> fields[j].Align >= 0 && fields[j].Start >= 0 && fields[j].End >= fields[j].Start
+//@   requires forall j int, k int :: {fields[j], fields[k]} 0 <= j && j < k && k < len(fields) ==> fields[j].Start <= fields[k].Start
+//@   requires forall j int :: {fields[j]} 0 <= j && j < len(fields) && !fields[j].IsPadding ==> top(fields[j].Name) != ""
+// no group takes the alignment of a field outside it ...
+//@   ensures  [noleak] forall k int :: {result[k]} 0 <= k && k < len(result) ==> result[k].Align <= galign(fields, result[k].Name)
+//@   loop 1   index q
+//@   loop 1   invariant [cur]    cur == "" ? new.Align == 0 : (new.Name == cur && new.Align <= galign(fields, cur))
+//@   loop 1   invariant [noleak] forall k int :: {out[k]} 0 <= k && k < len(out) ==> out[k].Align <= galign(fields, out[k].Name)
+// ... and the group being built always reaches to the end of the member added last
+//@   loop 1   invariant [covers] q > 0 && !fields[q-1].IsPadding ==> new.End >= fields[q-1].End
+//@   loop 1   invariant [before] new.Start >= 0 && (forall k int :: {fields[k]} q <= k && k < len(fields) ==> new.Start <= fields[k].Start)
